@@ -196,6 +196,7 @@ struct Kernel {
   void SendSignal(int signo);                 // to the running ninja process
   std::function<void(const Ev&)> on_event;    // live observer of the trace
   std::function<void()> on_proc_exit;         // the instant the process ended, before orphans go on
+  std::vector<Actor> start_actors;            // external actors put on the event queue when the next process starts
 
   // file helpers (absolute or cwd-relative paths), usable by drivers & children
   std::string Abs(const std::string& p) const;
